@@ -4,6 +4,18 @@ NoneV == <<0, 0, 0>>
 W211 == <<2, 1, 1>>
 W1111 == <<1, 1, 1, 1>>
 W2211 == <<2, 2, 1, 1>>
+W3221 == <<3, 2, 2, 1>>
 W11111 == <<1, 1, 1, 1, 1>>
+W33221 == <<3, 3, 2, 2, 1>>
+W22111 == <<2, 2, 1, 1, 1>>
 NoForkers == {}
+F3 == {3}
+F4 == {4}
+F5 == {5}
+VTieNo == [StdRule EXCEPT !.tie = "no"]
+VStrictQ == [StdRule EXCEPT !.quorum = "gt"]
+VRootsFinal == [StdRule EXCEPT !.roots = "final"]
+VFcIgnore == [StdRule EXCEPT !.fcfork = "ignore"]
+VFcCountAll == [StdRule EXCEPT !.fccount = "all"]
+VFirstClimb == [StdRule EXCEPT !.first = "climb"]
 ====
